@@ -493,6 +493,13 @@ def locate(fn, loc):
         if len(hits) <= loc[2]:
             raise Fail("%s: no augmented assignment #%d to %s" % (fn.name, loc[2], loc[1]), fn)
         return hits[loc[2]].value
+    if kind == "for_range":
+        # the single argument of the nth (source order) `for … in range(<expr>)`
+        hits = sorted((n for n in ast.walk(fn) if isinstance(n, ast.For) and isinstance(n.iter, ast.Call) and ast.unparse(n.iter.func) == "range"
+                       and len(n.iter.args) == 1 and not n.iter.keywords), key=lambda n: (n.lineno, n.col_offset))
+        if len(hits) <= loc[1]:
+            raise Fail("%s: no `for … in range(<expr>)` loop #%d" % (fn.name, loc[1]), fn)
+        return hits[loc[1]].iter.args[0]
     if kind == "slice_upper":
         # upper bound of the nth (source order) slice `base[lo:hi]`
         hits = sorted((n for n in ast.walk(fn) if isinstance(n, ast.Subscript) and isinstance(n.slice, ast.Slice) and ast.unparse(n.value) == loc[1]
